@@ -68,7 +68,7 @@ func loadEngine(repo string, specDir string) (*Engine, error) {
 		BuildFlags: []string{"-tags=verif"},
 		Env:        append(os.Environ(), "GOFLAGS=-mod=mod", "GOPROXY=off", "GOSUMDB=off", "GOTOOLCHAIN=local", "PATH=/opt/veriftools/go1.26.8/bin:"+os.Getenv("PATH")),
 	}
-	pkgs, err := packages.Load(cfg, ".", "./sync", "./store", "./p2p")
+	pkgs, err := packages.Load(cfg, ".", "./sync", "./store", "./p2p", "./p2p/pb")
 	if err != nil {
 		return nil, err
 	}
